@@ -42,9 +42,7 @@ Proof.
   destruct (now - now mod 1000 <=? last_filled st) eqn:E; [lia|]. cbn [stored].
   assert (Hcd : cool_down c st (now - now mod 1000) q = stored st).
   { unfold cool_down. destruct (stored st <? w_warning c) eqn:E1; [lia|].
-    destruct (stored st >? w_warning c) eqn:E2.
-    - unfold no_refill in Hn. rewrite Hn. destruct (stored st <=? w_max c) eqn:E3; lia.
-    - destruct (stored st <=? w_max c) eqn:E3; lia. }
+    unfold no_refill in Hn. rewrite Hn. destruct (stored st <=? w_max c) eqn:E3; lia. }
   rewrite Hcd. unfold consumed in *.
   assert (Hi : i64 (stored st + go_i64_of_f (- q)%float) = stored st + go_i64_of_f (- q)%float).
   { apply i64_id. unfold in_i64. Transparent two63. unfold two63 in *. lia. }
@@ -162,3 +160,40 @@ Proof.
   assert (d * (cf * td) <= n * (td * cf)) by nia.
   assert (0 < cf * td) by nia. nia.
 Qed.
+
+(* ---------- concrete witnesses (evaluated on the float model) ---------- *)
+
+(* one request per second for n seconds, starting at t *)
+Fixpoint one_per_sec (t : Z) (n : nat) : list (Z * Z) :=
+  match n with O => [] | S k => (t, 1) :: one_per_sec (t + 1000) k end.
+
+Definition t_start : Z := 1700000000010.
+
+(* D10: threshold 2 < cold factor 3: 90 seconds of one single-token request per second, none admitted *)
+Lemma d10_starved :
+  wvalid 2 10 3 = true /\ (1 <=? 2)%float = true /\
+  admitted_count (wrun (mk_wcfg 2 10 3) winit (one_per_sec t_start 90)) = 0.
+Proof. vm_compute. repeat split; reflexivity. Qed.
+
+(* threshold = cold factor = 5, period 121: the cold rate is 1 in exact arithmetic but the double
+   evaluation of 1/(201*slope + 1/5) followed by Nextafter gives 1 - 2^-53 *)
+Lemma d10_eq_starved :
+  wvalid 5 121 5 = true /\
+  (allowed_of (mk_wcfg 5 121 5) (w_max (mk_wcfg 5 121 5)) <? 1)%float = true /\
+  admitted_count (wrun (mk_wcfg 5 121 5) winit (one_per_sec t_start 90)) = 0.
+Proof. vm_compute. repeat split; reflexivity. Qed.
+
+(* empty token range (warningToken = maxToken): the very first request after an arbitrarily long idle
+   time already sees the full threshold, twice threshold/coldFactor *)
+Lemma no_cold_phase :
+  wvalid 1 1 2 = true /\ w_warning (mk_wcfg 1 1 2) = w_max (mk_wcfg 1 1 2) /\
+  let a := snd (calc (mk_wcfg 1 1 2) winit t_start) in
+  (1 <=? a)%float = true /\ (a <=? 0.5)%float = false.
+Proof. vm_compute. repeat split; reflexivity. Qed.
+
+(* a NaN threshold passes IsValidRule; the allowed value is NaN and everything is admitted *)
+Lemma nan_threshold :
+  wvalid nan 10 3 = true /\
+  is_nan (snd (calc (mk_wcfg nan 10 3) winit t_start)) = true /\
+  admitted_count (wrun (mk_wcfg nan 10 3) winit (repeat (t_start, 1) 30)) = 30.
+Proof. vm_compute. repeat split; reflexivity. Qed.
